@@ -1117,11 +1117,16 @@ def oracle_c08(tables, seed, tier, deep):
     cfg = Cfg(n=True)
     for it in range(30 if big else 6):
         lines = [l for l in mixed_lines(rng, 2 + rng.below(5))]
+        if it % 3 == 0:
+            # a line that is NOT a JSON object line but starts with one: a cut right behind the object must not make it one
+            g1 = to_json(G(rng.fork()).line()).encode()
+            lines = lines[:1] + [g1 + rng.choice([b" trailing", b"x", b" {}", b",", b" 1"])] + lines[1:] + [b'{"a":{"b":1}} }']
         data = b"\n".join(lines) + b"\n"
         exp = expected_stream(lines, cfg)
         nwrites = sum(1 for e in exp if e)
         ops = []
-        ks = sorted(set([0, 1, len(data) - 1, len(data)] + [rng.below(len(data) + 1) for _ in range(40 if big else 12)]))
+        closers = [i + 1 for i, b in enumerate(data) if b == 0x7d]
+        ks = sorted(set([0, 1, len(data) - 1, len(data)] + [rng.below(len(data) + 1) for _ in range(40 if big else 12)] + closers[-(60 if big else 25):]))
         for k in ks:
             ops.append(("r%d" % k, ["stream", cfg.s(), "c%d,r%d" % (rng.choice([1, 64, 4096]), k), hx(data)], ("r", k)))
         for k in range(nwrites + 1):
